@@ -323,7 +323,9 @@ def bounded_indicator_nodes(tier, seed):
               b"visit www.example-site.org today", b"1.2.3.4 <t>", b" 10.20.30.40 ",
               # context truncation (quote / bracket before the URL, its partner inside the match; a Pascal-string length byte): what is left must still be a URL with a host
               b"x 'http://user@'@example.com/login y", b"(http://a:b@)@example.com/ z", b"\x00" * 12 + b"\x09http://a@0example.com/", b"'http://example.com/a'b/c'", b"(http://example.com/x)y",
-              b"see http://[2001:DB8::1]:8080/ and http://[2001:db8::1]/ x"]
+              b"see http://[2001:DB8::1]:8080/ and http://[2001:db8::1]/ x",
+              # escapes before / after the closing character of a quoted or bracketed URL: value and label are those of the text the node covers
+              b"x 'http://example.com/%61%62c/index'+suffix y", b"(http://example.com/path)%41%42 z", b"'http://example.com/a%2fb'%61 q", b"(http://example.com/%7Euser/x)%2e"]
     for _ in range(120 if tier == "quick" else 3000):
         parts = [rng.choice([gen_url(rng), gen_ip(rng), gen_domain(rng), b"user" + str(rng.randint(0, 99)).encode() + b"@" + gen_domain(rng), b"0" + gen_ip(rng)]) for _ in range(3)]
         inputs.append(b" ".join(parts))
